@@ -95,6 +95,7 @@ var allow_sign_inProc = sense.EnvBool("UNSAFE_ALLOW_SIGN_INPROC") // testing
 // - SignTransaction
 // - Sign
 // - SendTransaction
+// - SignAndSendTransaction (deprecated alias of SendTransaction)
 func (s *Server) RegisterName(name string, rcvr interface{}) (methodNames []string, err error) {
 
 	if s.services == nil {
@@ -181,7 +182,7 @@ func (s *Server) RegisterName(name string, rcvr interface{}) (methodNames []stri
 }
 
 func isProtectedMethodName(name string) bool {
-	return name == "SignTransaction" || name == "Sign" || name == "SendTransaction"
+	return name == "SignTransaction" || name == "Sign" || name == "SendTransaction" || name == "SignAndSendTransaction"
 }
 
 var debugrpc = sense.EnvBool("DEBUG_RPC")
